@@ -82,6 +82,44 @@ var Tiny = &Alphabet{
 	Refine: []string{"notnull"}, Validate: []string{"rejectnull"},
 }
 
+// LabelDeep is the alphabet of the "label depth" stages: a small alphabet
+// whose BlockMapSpec / BlockObjectSpec carry one or THREE label names, so
+// that the nested-collection construction is exercised below its second
+// level. Only the trees that contain a spec with three or more label names
+// are emitted by those stages (the others belong to the other stages).
+var LabelDeep = &Alphabet{
+	AttrTys:   []string{TString, TDynamic},
+	AttrReq:   []bool{false},
+	Literals:  []*Spec{{K: KLiteral, Ty: TString}},
+	AttrsTys:  []string{TString},
+	AttrsReq:  []bool{false},
+	MaxLabel:  0,
+	BlockReq:  []bool{false},
+	MinMax:    [][2]int{{0, 0}},
+	TMinMax:   [][2]int{{0, 0}},
+	MapLabels: []int{1, 3}, ObjLabels: []int{1, 3},
+	TExpr: []string{"wrap"}, TFunc: []string{"wrap"},
+	Refine: []string{"notnull"}, Validate: []string{"rejectnull"},
+}
+
+// LabelDeep4 is LabelDeep with four label names as well (thorough tier).
+var LabelDeep4 = func() *Alphabet {
+	a := *LabelDeep
+	a.MapLabels, a.ObjLabels = []int{1, 3, 4}, []int{1, 3, 4}
+	return &a
+}()
+
+// hasLabelDepth: some BlockMapSpec / BlockObjectSpec of the tree has at least n label names.
+func hasLabelDepth(s *Spec, n int) bool {
+	found := false
+	s.Walk(func(x *Spec) {
+		if len(x.Labels) >= n {
+			found = true
+		}
+	})
+	return found
+}
+
 type genKey struct {
 	d      int
 	labels bool
@@ -218,7 +256,7 @@ func (g *generator) trees(d int, labels bool) []*Spec {
 }
 
 func labelNames(n int) []string {
-	names := []string{"k", "m"}
+	names := []string{"k", "m", "n", "p"}
 	return names[:n]
 }
 
@@ -272,21 +310,32 @@ func assignNames(root *Spec) {
 
 // Enumerate emits (normalized) spec trees, simplest first:
 //
-//	quick:    all trees of depth <= 2 over Rich, then all trees of depth 3 over Reduced
-//	thorough: all trees of depth <= 3 over Rich (depth 3: pairs with partners only), then depth 4 over Tiny
+//	quick:    all trees of depth <= 2 over Rich, the label-depth trees (below) over LabelDeep,
+//	          then all trees of depth 3 over Reduced
+//	thorough: all trees of depth <= 2 over Rich, the label-depth trees over LabelDeep4, all trees of
+//	          depth 3 over Rich (pairs with partners only), then depth 4 over Tiny
+//
+// label-depth trees: every tree of depth 2 or 3 over the alphabet that contains a
+// BlockMapSpec / BlockObjectSpec with three or more label names (three in the quick tier, three or
+// four in the thorough tier): such a spec over every leaf, at the top level, and one level down
+// inside every wrapping spec kind (and as the wrapper of every depth-2 tree).
 func Enumerate(tier string, emit func(*Spec) bool) {
 	type stage struct {
-		a     *Alphabet
-		depth int // emit trees of exactly this depth
+		a        *Alphabet
+		depth    int // emit trees of exactly this depth
+		minLabel int // > 0: only the trees with a spec of at least this many label names
 	}
-	stages := []stage{{Rich, 1}, {Rich, 2}, {Reduced, 3}}
+	stages := []stage{{Rich, 1, 0}, {Rich, 2, 0}, {LabelDeep, 2, 3}, {LabelDeep, 3, 3}, {Reduced, 3, 0}}
 	if tier == "thorough" {
-		stages = []stage{{Rich, 1}, {Rich, 2}, {Rich, 3}, {Tiny, 4}}
+		stages = []stage{{Rich, 1, 0}, {Rich, 2, 0}, {LabelDeep4, 2, 3}, {LabelDeep4, 3, 3}, {Rich, 3, 0}, {Tiny, 4, 0}}
 	}
 	for _, st := range stages {
 		g := &generator{a: st.a, memo: map[genKey][]*Spec{}}
 		for _, t := range g.trees(st.depth, false) {
 			if t.Depth() != st.depth {
+				continue
+			}
+			if st.minLabel > 0 && !hasLabelDepth(t, st.minLabel) {
 				continue
 			}
 			if !emit(Normalize(t)) {
